@@ -123,6 +123,30 @@ Theorem C09_bind_subexpr_print :
 Proof. exact bind_subexpr_print. Qed.
 Print Assumptions C09_bind_subexpr_print.
 
+Theorem C09_bind_subexpr_return :
+  forall structs callf k x t v C e en out,
+    cfctx x C = true -> callfree e = true -> peval structs e en = PV v ->
+    exec structs callf k (SBlock (SSeq (SLet x t e) (SReturn (Some (eplug C (EVar x)))))) en out =
+    exec structs callf k (SReturn (Some (eplug C e))) en out.
+Proof. exact bind_subexpr_return. Qed.
+Print Assumptions C09_bind_subexpr_return.
+
+Theorem C09_bind_subexpr_assign :
+  forall structs callf k x t v y C e en out,
+    Nat.eqb y x = false -> cfctx x C = true -> callfree e = true -> peval structs e en = PV v ->
+    exec structs callf k (SBlock (SSeq (SLet x t e) (SAssign y (eplug C (EVar x))))) en out =
+    exec structs callf k (SAssign y (eplug C e)) en out.
+Proof. exact bind_subexpr_assign. Qed.
+Print Assumptions C09_bind_subexpr_assign.
+
+Theorem C09_bind_subexpr_exprstmt :
+  forall structs callf k x t v C e en out,
+    cfctx x C = true -> callfree e = true -> peval structs e en = PV v ->
+    exec structs callf k (SBlock (SSeq (SLet x t e) (SExpr (eplug C (EVar x))))) en out =
+    exec structs callf k (SExpr (eplug C e)) en out.
+Proof. exact bind_subexpr_exprstmt. Qed.
+Print Assumptions C09_bind_subexpr_exprstmt.
+
 Theorem C09_bind_nonvacuous :
   let e := EBin Mul (EVar 1) (ELit I32 3%Z) in
   let C := CBinR Add (EVar 2) (CCast CHole I64) in
